@@ -19,6 +19,8 @@ BOARD = "L::machine::board::Board"
 
 
 def run(ctx):
+    from .. import wrappers
+    wrappers.check(ctx, ["set_digital_input1", "set_temp", "set_jumper1", "set_jumper2", "set_analog_input1", "set_analog_input2", "set_universal_input_output1", "set_universal_input_output2", "set_universal_input_output3"])     # the outer Machine methods the callers use are the routines analysed below
     p = ctx.p
     chk = ctx.chk
     I = absint.Interp(p)
@@ -157,14 +159,37 @@ def run(ctx):
     chk.ob("digital-input", get("digital_input1") == Opaque("DI") and w == {"digital_input1"},
            "the digital input port is stored as applied", b.loc(), "%r %s" % (get("digital_input1"), sorted(w)))
     # UOR / UDR / ICR decoding
-    for byte, want in ((0b000, [0, 0, 0]), (0b101, [1, 0, 1]), (0b010, [0, 1, 0]), (0b111, [1, 1, 1])):
-        get, r, bad, w, b = call("set_udr", board(), byte | 0x80)
-        chk.ob("udr/%d" % byte, get("uio_dir") == Arr(want) and not bad, "UDR bits 0-2 set the UIO directions", b.loc(),
-               "%r" % (get("uio_dir"),))
-        get, r, bad, w, b = call("set_uor", board(dasr__bits=0), byte)
-        wantb = (DASR["UIO_1"] if byte & 1 else 0) | (DASR["UIO_2"] if byte & 2 else 0) | (DASR["UIO_3"] if byte & 4 else 0)
-        chk.ob("uor/%d" % byte, get("dasr.bits") == wantb and not bad, "UOR bits 0-2 drive the UIO status bits", b.loc(),
-               "%r expected %#x" % (get("dasr.bits"), wantb))
+    # every byte the bus can hand over (the two selector bits are fixed by the dispatch below), from an all-clear, an all-set
+    # and a mixed status register: only the three UIO bits follow the byte, every other status bit keeps its value
+    uio_mask = DASR["UIO_1"] | DASR["UIO_2"] | DASR["UIO_3"]
+    for low in range(8):
+        bad_udr, bad_uor = [], []
+        for hi in range(8):
+            byte = low | (hi << 3)
+            want = [1 if byte & 1 else 0, 1 if byte & 2 else 0, 1 if byte & 4 else 0]
+            get, r, bad, w, b = call("set_udr", board(), byte | 0x80)
+            if get("uio_dir") != Arr(want) or bad or not w <= {"uio_dir"}:
+                bad_udr.append("%#04x -> %r (writes %s)" % (byte | 0x80, get("uio_dir"), sorted(w)))
+            for start in (0x00, 0xFF, 0xA8, 0x57):
+                get, r, bad, w, b2 = call("set_uor", board(dasr__bits=start), byte)
+                wantb = (start & ~uio_mask & 0xFF) | (DASR["UIO_1"] if byte & 1 else 0) | (DASR["UIO_2"] if byte & 2 else 0) | \
+                    (DASR["UIO_3"] if byte & 4 else 0)
+                if get("dasr.bits") != wantb or bad or not w <= {"dasr.bits"}:
+                    bad_uor.append("byte %#04x on status %#04x -> %r, expected %#04x" % (byte, start, get("dasr.bits"), wantb))
+        chk.ob("udr/%d" % low, not bad_udr, "UDR bits 0-2 set the UIO directions, the other bits of the byte are ignored", b.loc(),
+               "; ".join(bad_udr[:3]) or "8 bytes")
+        chk.ob("uor/%d" % low, not bad_uor, "UOR bits 0-2 drive the UIO status bits; the other bits of the byte reach no "
+               "status bit (comparator, fan and jumper bits keep their value)", b2.loc(), "; ".join(bad_uor[:3]) or "8 bytes x 4 status values")
+    icr_mask = 0
+    for v_ in DAICR.values():
+        icr_mask |= v_
+    bad_icr = []
+    for byte in range(256):
+        get, r, bad, w, b3 = call("set_icr", board(dasr__bits=0xA5), byte)
+        if get("daicr.bits") != (byte & icr_mask) or get("dasr.bits") != 0xA5 or bad:
+            bad_icr.append("%#04x -> control %r, status %r" % (byte, get("daicr.bits"), get("dasr.bits")))
+    chk.ob("icr/stored", not bad_icr, "a write to the interrupt control register stores the defined bits of the byte and leaves the "
+           "status register alone", b3.loc(), "; ".join(bad_icr[:3]) or "256 bytes")
     # 0xF2 selector in the bus
     wb = p.need_body("L::machine::bus::Bus::write")
     for sel, callee in ((0b00, "set_uor"), (0b10, "set_udr"), (0b11, "set_icr"), (0b01, None)):
